@@ -67,9 +67,8 @@ func VerifC05_Chain() {
 	// with exit_on_end (a victim of that shutdown: its code must not become the project's) and
 	// one that is slow to die
 	confs := []types.ProcessConfig{a, b, c}
-	// (only where a fails after the start-up has registered every process: a shutdown that is
-	// triggered while Run() still registers processes is the known finding of C03)
-	withVictim := exitOnSkipped && (mode == 0 || mode == 3) && verifChooseK("bystanders", 2) == 1
+	// (a may fail while Run() still registers the bystanders: then they are never started)
+	withVictim := exitOnSkipped && verifChooseK("bystanders", 2) == 1
 	if withVictim {
 		if mode == 0 {
 			w.behav["a"].latency = 1 // a exits once nothing else can happen
@@ -93,16 +92,9 @@ func VerifC05_Chain() {
 	go func() { runDone <- r.Run() }()
 	if mode == 3 {
 		go func() {
-			if withVictim {
-				// with bystanders the user stops a once the start-up is over: a project
-				// shutdown that begins while Run() still registers processes is the known
-				// finding of C03 and would hide what this harness judges
-				verifQuiesce()
-			} else {
-				for n := range w.started { // the user stops a once its command runs
-					if n == "a" {
-						break
-					}
+			for n := range w.started { // the user stops a once its command runs
+				if n == "a" {
+					break
 				}
 			}
 			_ = r.StopProcess("a")
